@@ -13,6 +13,7 @@ fn once(case: &Value, run: &Run) -> Acc {
         "built-index" | "built-slice" => crate::checks::robust::replay_built(case, run),
         "ref" | "ref-history" | "ref-seq" => crate::checks::refs::replay(case, run),
         "spelling" => crate::checks::spellings::replay(case, run),
+        "spelling-sequence" => crate::checks::spellings::replay_sequence(case, run),
         "views" => crate::checks::views::replay(case, run),
         "schedule" => crate::checks::purity::replay_schedule(case, run),
         "history" => crate::checks::purity::replay_history(case, run),
